@@ -46,6 +46,13 @@ func (c *ctx) count(k string) {
 	c.mu.Unlock()
 }
 
+// flush makes everything emitted so far durable (call before a scenario that may bring the process down).
+func (c *ctx) flush() {
+	c.mu.Lock()
+	c.out.Flush()
+	c.mu.Unlock()
+}
+
 // emit writes one case line.
 func (c *ctx) emit(kind string, kv ...any) {
 	c.mu.Lock()
